@@ -2,6 +2,11 @@
 From Coq Require Import List Bool Arith NArith Lia.
 Import ListNotations.
 
+(* lazy conjunction: under vm_compute (call by value) [a && b] evaluates b even when a is false *)
+Notation "a &&& b" := (if a then b else false) (at level 40, left associativity).
+Lemma land_true_iff (a b : bool) : a &&& b = true <-> a = true /\ b = true.
+Proof. destruct a, b; intuition congruence. Qed.
+
 Class EqDec (A : Type) := { eqb : A -> A -> bool; eqb_spec : forall x y, reflect (x = y) (eqb x y) }.
 
 Lemma eqb_refl {A} `{EqDec A} (x : A) : eqb x x = true.
